@@ -71,6 +71,10 @@ class Events(core.Scenario):
                                      'silence': INTERVAL + 3 * TIMEOUT + INTERVAL + TIMEOUT + 0.5}.get(c, 0.0)
                                     for c in causes])
         extra = {}
+        if p.get('handlers') == 'legacy':
+            extra['legacy_disconnect'] = True          # disconnect handler with the old one-argument signature
+        if p.get('handlers') == 'plain_functions' and impl == 'async':
+            extra['sync_handlers'] = True              # ordinary functions registered on the asyncio server
         if p.get('trace') and impl == 'sync':
             # line-granular preemption inside the named library functions (DESIGN 3.4)
             extra['trace_funcs'] = p['trace']
@@ -200,7 +204,7 @@ class Events(core.Scenario):
             if not self.inj or all(step >= ev[4] for _, step, _ in self.inj):
                 # ended by the suffix's own traffic / silence
                 allowed.update(TIMED + ['server disconnect'])
-            if ev[2] not in allowed:
+            if ev[2] not in allowed and p.get('handlers') != 'legacy':
                 self.flag('wrong_reason', 'reason %r, causes delivered before the event: %r (allowed %r)'
                           % (ev[2], [n for n, s, t in self.inj if s < ev[4]], sorted(allowed)), trigger=trig)
         msgs = [e for e in evA if e[0] == 'message']
@@ -247,6 +251,11 @@ def param_list(ctx):
                 for dh in (('record', 'yield') if ctx.quick else DH):
                     ps.append({'impl': impl, 'transport': tr, 'causes': list(cs), 'dh': dh})
             ps.append({'impl': impl, 'transport': tr, 'causes': [causes[0]], 'dh': 'record', 'mh': 'raise'})
+            for cs in ([causes[0]], ['api_disc'], ['silence']):
+                ps.append({'impl': impl, 'transport': tr, 'causes': cs, 'dh': 'record', 'handlers': 'legacy'})
+                if impl == 'async':
+                    ps.append({'impl': impl, 'transport': tr, 'causes': cs, 'dh': 'record', 'handlers': 'plain_functions'})
+                    ps.append({'impl': impl, 'transport': tr, 'causes': cs, 'dh': 'raise', 'handlers': 'plain_functions'})
             ps.append({'impl': impl, 'transport': tr, 'causes': ['silence'], 'dh': 'record', 'reject_first': True})
             ps.append({'impl': impl, 'transport': tr, 'causes': [causes[0]], 'dh': 'record', 'reject_first': True})
             # a MESSAGE that may be delivered while the disconnect handler of another cause is suspended
